@@ -15,7 +15,7 @@ func configs(r *eng.Run) []string {
 	var out []string
 	add := func(c cfg) { out = append(out, c.String()) }
 	add(cfg{layout: "hamt", width: 8, thr: "def", est: "links"})
-	add(cfg{layout: "hamt", width: 16, thr: "def", est: "links", stat: true, v1: true})
+	add(cfg{layout: "hamt", width: 16, thr: "def", est: "links", stat: 1, v1: true})
 	widths := []int{8}
 	if r.Thorough() {
 		widths = []int{8, 256}
@@ -32,8 +32,20 @@ func configs(r *eng.Run) []string {
 		for _, ml := range []int{2, 3} {
 			add(cfg{layout: "dyn", width: w, maxLinks: ml, thr: "def", est: "off"})
 		}
-		add(cfg{layout: "dyn", width: w, maxLinks: 0, thr: "tiny", est: "block", stat: true})
-		add(cfg{layout: "dyn", width: w, maxLinks: 3, thr: "tiny", est: "links", stat: true, v1: true})
+		add(cfg{layout: "dyn", width: w, maxLinks: 0, thr: "tiny", est: "block", stat: 1})
+		// block mode with Data fields of other size classes (epoch second 0, nanos,
+		// negative seconds, no mode): the threshold sits exactly on {a,b,cA} + Data
+		// field, so the Data-field term decides both conversion directions
+		for _, st := range eng.Pick(r, []int{2, 3, 4}, []int{2, 3, 4, 5}) {
+			if w == 8 {
+				add(cfg{layout: "dyn", width: w, maxLinks: 0, thr: "tiny", est: "block", stat: st})
+			}
+		}
+		if r.Thorough() && w == 8 {
+			add(cfg{layout: "dyn", width: w, maxLinks: 3, thr: "tiny", est: "block", stat: 2})
+			add(cfg{layout: "dyn", width: w, maxLinks: 2, thr: "def", est: "block", stat: 3})
+		}
+		add(cfg{layout: "dyn", width: w, maxLinks: 3, thr: "tiny", est: "links", stat: 1, v1: true})
 	}
 	return out
 }
